@@ -65,6 +65,42 @@ Theorem C13_roundtrip_sound_partial :
 Proof. exact roundtrip_sound. Qed.
 Print Assumptions C13_roundtrip_sound_partial.
 
+(* session 6: the same composed statement with use_operators on or off (the converter model reads `a <op> b` through its
+   operator table); the instance use_ops = None is the theorem above *)
+Theorem C13_roundtrip_ops_sound_partial :
+  forall (V : Type) sem truth trip of_nat of_bool limit globals,
+    (forall v : V, sem "" "Identity" [] [Some v] = Some [v]) ->
+    (forall b, truth (of_bool b) = Some b) ->
+    (forall v b, truth v = Some b -> exists r, sem "" "Not" [] [Some v] = Some [r] /\ truth r = Some (negb b)) ->
+    (forall a b x y, truth a = Some x -> truth b = Some y ->
+       exists r, sem "" "And" [] [Some a; Some b] = Some [r] /\ truth r = Some (x && y)) ->
+    (forall z c, const_val V sem (LInt z) = Some c -> trip c = Some (Z.to_nat z)) ->
+    forall kw prename rename infun brk use_ops fname ivals g f sk wb cic afuel orders g' xs vs fg k pre es,
+      export_cf kw prename rename infun use_ops None false fname ivals g = Some (f, sk) ->
+      nested_ops_okb kw prename rename infun brk use_ops ivals g = true ->
+      (brk = true -> forall v, exists b, truth v = Some b) ->
+      (wb = true -> forall v, exists b, truth v = Some b) ->
+      (forall c b pe v, cic c = Some b -> eval_expr V sem globals pe c = Some v -> ptruth V truth v = Some b) ->
+      f_body f = (pre ++ [SReturn es])%list -> pre_ok globals cic afuel wb 11 pre [SReturn es] [] = true -> forallb expr_ok es = true ->
+      NoDup (f_tparams f) ->
+      translate false globals cic afuel orders f = Some g' ->
+      depth_graph g <= S fg -> stmt_depth_fuel <= k ->
+      match init_env V sem ivals with
+      | Some outer => eval_graph V sem truth trip of_nat of_bool limit (S (S fg)) outer g xs = Some vs
+      | None => False
+      end ->
+      eval_graph V sem truth trip of_nat of_bool limit (S k) [] g' xs = Some vs.
+Proof. exact roundtrip_ops_sound. Qed.
+Print Assumptions C13_roundtrip_ops_sound_partial.
+
+Theorem C13_roundtrip_ops_example :
+  nested_ops_okb kwlist (cleanup kwlist) (cleanup kwlist) false false (Some true) iv_nested g_nested = true /\
+  exists f, export_cf kwlist (cleanup kwlist) (cleanup kwlist) false (Some true) None false "g" iv_nested g_nested = Some (f, []) /\
+    rt_class (Some (f, [])) = (true, true, true) /\
+    exists g', back f = Some g' /\ zgraph_rt g' [(-3)%Z] = Some [94%Z] /\ zgraph_rt g' [5%Z] = Some [(-10)%Z].
+Proof. exact roundtrip_ops_example. Qed.
+Print Assumptions C13_roundtrip_ops_example.
+
 (* non-vacuity: the nested example of Props/C13_nested.v (If whose else branch holds a while loop, an initializer,
    names needing the clean-up): every boolean hypothesis holds, the converter model accepts the exported function, and
    the graph it builds computes 94 on -3 and -10 on 5, as the original *)
